@@ -14,6 +14,7 @@ import collections
 import itertools as it
 import locale
 import re
+from decimal import Context, Decimal, ROUND_HALF_UP
 from enum import Enum
 from typing import Iterable, List
 
@@ -298,7 +299,10 @@ class TextFormat:
             return ''.join(t.token for t in tokenized_format.tokens)
 
     def _number_converter(self, number_value, tokenized: Tokenized):
-        number_value *= 100 ** tokenized.percents
+        # round the decimal value (what the number displays as), half away from zero
+        context = Context(prec=1000, rounding=ROUND_HALF_UP)
+        number_value = Decimal(repr(float(number_value)) if isinstance(number_value, float) else number_value)
+        number_value = context.multiply(number_value, 100 ** tokenized.percents)
         number_format = ''.join(
             t.token for t in tokenized.tokens if t.type == self.TokenType.NUMBER)
         thousands = self.thousands_format if tokenized.thousands else ''
@@ -306,10 +310,11 @@ class TextFormat:
         if tokenized.decimal:
             left_num_format, right_num_format = number_format.split('.', 1)
             decimals = len(right_num_format)
-            left_side, right_side = f'{number_value:#{thousands}.{decimals}f}'.split('.')
+            number_value = context.quantize(number_value, Decimal(1).scaleb(-decimals))
+            left_side, _, right_side = f'{number_value:{thousands}.{decimals}f}'.partition('.')
             right_side = right_side.rstrip('0')
         else:
-            left_side = f'{int(round(number_value, 0)):{thousands}}'
+            left_side = f'{int(context.quantize(number_value, Decimal(1))):{thousands}}'
             right_side = None
         left_side = left_side.lstrip('0')
 
